@@ -5,23 +5,30 @@ package main
 import (
 	"github.com/youchainhq/go-youchain/trie"
 	"github.com/youchainhq/go-youchain/you/downloader"
+	"github.com/youchainhq/go-youchain/youdb"
 	"verif/harness/drive"
 	"verif/harness/drive/triesync"
 )
 
 func main() {
-	// every blob goes through processNodeData on its own, as trieSync.process does; the first failing item ends the batch
+	// every blob goes through processNodeData on its own, as trieSync.process does; the first failing item ends the batch;
+	// every flush goes through trieSync.commit(true): a batch of the backing database, Sync.Commit, and the written count
+	// deciding whether the batch is written at all
 	triesync.PerItem = true
+	var ts *downloader.VerifTrieSync
+	var of *trie.Sync
+	get := func(sched *trie.Sync, dest *youdb.MemDatabase) *downloader.VerifTrieSync {
+		if ts == nil || of != sched {
+			ts, of = downloader.VerifNewTrieSyncOn(sched, dest), sched
+		}
+		return ts
+	}
+	var lastDest *youdb.MemDatabase
 	triesync.NewDeliverer = func() triesync.Deliverer {
-		var ts *downloader.VerifTrieSync
-		var of *trie.Sync
 		return func(sched *trie.Sync, blobs [][]byte) (bool, int, error) {
-			if ts == nil || of != sched {
-				ts, of = downloader.VerifNewTrieSync(sched), sched
-			}
 			committed := false
 			for i, b := range blobs {
-				c, _, err := ts.ProcessNodeData(b)
+				c, _, err := get(sched, lastDest).ProcessNodeData(b)
 				committed = committed || c
 				if err != nil {
 					return committed, i, err
@@ -30,6 +37,11 @@ func main() {
 			return committed, 0, nil
 		}
 	}
+	triesync.Committer = func(sched *trie.Sync, dest *youdb.MemDatabase) (int, error) {
+		lastDest = dest
+		return -1, get(sched, dest).Commit(true)
+	}
+	triesync.OnNewSync = func(dest *youdb.MemDatabase) { lastDest, ts, of = dest, nil, nil }
 	drive.Register("triesyncdl", triesync.Run)
 	drive.Main()
 }
